@@ -1026,6 +1026,11 @@ impl<'p> Harness<'p> {
                 self.ended = true;
                 return;
             }
+            // a panic where an observer of an invalid node (or of a node built on one) was to be
+            // told ObservingInvalid is also C03's violation
+            if self.model.cone_touches_invalid(&roots) && !EXPECTED_PANICS.iter().any(|p| m.contains(p)) {
+                self.fail("C03", "panic-instead-of-invalid", format!("round {r}: stabilise panicked ({m}) while an observed node depends on an invalidated one; the observer was to read ObservingInvalid"));
+            }
             return self.on_panic("stabilise", m);
         }
         self.model.process_round(&roots, &events);
